@@ -172,9 +172,9 @@ fn families(run: &mut Run, tier: Tier, prop: &str) {
     let _ = tier;
 }
 
-/// (c) the block encoder's decision automaton: one 128 KiB generator per decision incl. the marginal ones
-fn decision_automaton(run: &mut Run, tier: Tier, prop: &str) {
-    let th = meter::threads();
+/// the block generators of the decision automaton: one 128 KiB block per decision of the block encoder, including
+/// the table-reuse decisions and the marginal band (also fed to the command line tool by C19)
+pub fn decision_gens(tier: Tier) -> Vec<(String, Vec<u8>)> {
     const B: usize = 128 * 1024;
     let mut gens: Vec<(String, Vec<u8>)> = vec![("rle".into(), vec![0x55; B]), ("incompressible".into(), unique(B, 1)), ("text".into(), text_like(B, 3)), ("few literals many matches".into(), (0..B).map(|i| (i % 23) as u8).collect()), ("skewed 60 symbols".into(), skewed(B, 60, 9)), ("skewed 60 symbols again".into(), skewed(B, 60, 10))];
     // table reuse decisions: the same distribution with one extra rare symbol inside / above the previous symbol
@@ -216,6 +216,14 @@ fn decision_automaton(run: &mut Run, tier: Tier, prop: &str) {
             }
         }
     }
+    gens
+}
+
+/// (c) the block encoder's decision automaton: one 128 KiB generator per decision incl. the marginal ones
+fn decision_automaton(run: &mut Run, tier: Tier, prop: &str) {
+    let th = meter::threads();
+    const B: usize = 128 * 1024;
+    let gens = decision_gens(tier);
     // which generators are marginal on this tree: Huffman accepted for the literals, block nevertheless stored raw
     let marginal: Vec<String> = gens
         .iter()
